@@ -252,3 +252,16 @@ func ZZ_SELF_Ranges() {
 	zzvf.Observe("cmp2", w <= 1234)
 	zzvf.Reach("ranges")
 }
+
+//vf: paths=200 witnesses=4
+func ZZ_SELF_Runes() {
+	s := zzvf.String(2)
+	rs := []rune("a" + s)
+	zzvf.Observe("n", len(rs))
+	for _, r := range rs {
+		zzvf.Observe("r", int(r))
+	}
+	back := string(rs)
+	zzvf.Observe("back", back)
+	zzvf.Reach("runes")
+}
